@@ -231,6 +231,10 @@ def Loc.isIdx : Loc → Bool
   | .idx _ => true
   | _ => false
 
+def Loc.isCoord : Loc → Bool
+  | .coord _ _ => true
+  | _ => false
+
 def Loc.refIndex : Loc → Nat
   | .idx n => n
   | _ => 0
@@ -727,16 +731,26 @@ def jobHasValue (d : Doc) : Bool := d.jobs.any (fun j => j.value2.any (fun v => 
 def jobHasOrder (d : Doc) : Bool :=
   d.jobs.any (fun j => (tasksOf j).any (fun t => t.order.any (fun o => decide (0 < o))))
 
+/-- the places of a break that name a location -/
+def breakPlaces : Break → List Loc
+  | .optTw _ locs => locs.filterMap id
+  | .optOff _ locs => locs.filterMap id
+  | _ => []
+
+/-- the locations a shift mentions: start, end, break places, reloads, recharge stations -/
+def shiftLocations (s : Shift) : List Loc :=
+  s.startLoc :: ((s.end_.map (·.loc)).toList ++ (optList s.breaks).flatMap breakPlaces
+    ++ (optList s.reloads).map (·.loc) ++ (optList s.recharges).map (·.loc))
+
 /-- all locations of the document -/
 def locations (d : Doc) : List Loc :=
   d.jobs.flatMap (fun j => (tasksOf j).flatMap (fun t => t.places.map (·.loc)))
-  ++ d.vehicles.flatMap (fun v => v.shifts.flatMap (fun s =>
-      s.startLoc :: ((s.end_.map (·.loc)).toList
-        ++ (optList s.breaks).flatMap (fun b => match b with
-            | .optTw _ locs => locs.filterMap id
-            | .optOff _ locs => locs.filterMap id
-            | _ => [])
-        ++ (optList s.reloads).map (·.loc) ++ (optList s.recharges).map (·.loc))))
+  ++ d.vehicles.flatMap (fun v => v.shifts.flatMap shiftLocations)
+
+/-- an index location needs a matrix with more than `index` rows -/
+def Loc.indexBound : Loc → Nat
+  | .idx n => n + 1
+  | _ => 0
 
 /-- number of distinct elements -/
 def distinctCount [BEq α] : List α → Nat
@@ -747,7 +761,7 @@ def distinctCount [BEq α] : List α → Nat
     location needs a row (a matrix has at least one row) -/
 def requiredSize (d : Doc) : Nat :=
   let locs := locations d
-  max 1 (max (distinctCount locs) ((locs.map (fun l => match l with | .idx n => n + 1 | _ => 0)).foldl max 0))
+  max 1 (max (distinctCount locs) ((locs.map Loc.indexBound).foldl max 0))
 
 /-- `n` is the dimension of a square matrix with `len` entries -/
 def isSquareOf (len n : Nat) : Bool := n * n == len
@@ -830,9 +844,8 @@ def violates (d : Doc) : Rule → Bool
   -- E15xx routing
   | .E1500 => !nodupB d.profiles
   | .E1501 => d.profiles.isEmpty
-  | .E1502 => (locations d).any (fun l => match l with | .idx _ => true | _ => false)
-      && (locations d).any (fun l => match l with | .coord _ _ => true | _ => false)
-  | .E1503 => (locations d).any (fun l => match l with | .idx _ => true | _ => false) && d.matrices.isEmpty
+  | .E1502 => (locations d).any Loc.isCoord && (locations d).any Loc.isIdx
+  | .E1503 => (locations d).any Loc.isIdx && d.matrices.isEmpty
   | .E1504 => d.matrices.any (fun m => !isSquareOf m.dist (requiredSize d))
   | .E1505 => d.vehicles.any (fun v => !d.profiles.contains v.profile)
       || d.clustering.any (fun p => !d.profiles.contains p)
